@@ -6,7 +6,7 @@ import sys
 
 HERE = os.path.dirname(os.path.dirname(os.path.abspath(__file__)))
 sys.path.insert(0, HERE)
-from tools.manifest_table import CHECKS, NOT_APPLICABLE, NOTES, HOOK_COMMITS  # noqa
+from tools.manifest_table import CHECKS, NOT_APPLICABLE, NOTES, HOOK_COMMITS, ADDENDA  # noqa
 
 ALL = ["C%02d" % i for i in range(1, 21)]
 
@@ -25,7 +25,7 @@ def main():
                 "evidence_file": "/verif/evidence/%s.json" % pid,
                 "replay_cmd_template": "./check %s --replay {path}" % pid,
                 "engine": c["engine"],
-                "level_claimed": {"category": c["category"], "text": c["text"], "design_ref": c["design_ref"]},
+                "level_claimed": {"category": c["category"], "text": c["text"] + (" Later additions: " + ADDENDA[pid] if pid in ADDENDA else ""), "design_ref": c["design_ref"]},
                 "level_note": c["note"],
                 "technique": c["technique"],
             }
